@@ -145,6 +145,101 @@ theorem respond_holds_grant {t : Nat} (ht : c.t = some t) (s : DState) (x : WBus
   simp only [next, hce]
   exact RoundRobin.next_ce_hold _ hg
 
+/-! Scenario lemmas: the owner offers AW and W, every slave is silent. -/
+
+/-- No slave raises `aw.ready`, `w.ready` or `b.valid`. -/
+def Silent (x : WBusIn) : Prop := ∀ j, (x.ss j).awr = false ∧ (x.ss j).wr = false ∧ (x.ss j).bv = false
+
+theorem tIn_silent (s : DState) (x : WBusIn) (h : Silent x) :
+    (tIn c s x).awr = false ∧ (tIn c s x).wr = false ∧ (tIn c s x).bv = false :=
+  ⟨orAll_false (fun j => by simp [(h j).1]), orAll_false (fun j => by simp [(h j).2.1]),
+   orAll_false (fun j => by simp [(h j).2.2])⟩
+
+/-- One WAIT cycle of an unaccepted AW+W request. -/
+theorem silent_wait_step {t : Nat} (ht : c.t = some t) (s : DState) (x : WBusIn)
+    (hgn : s.grant < c.n) (hl : s.lock = 0) (hr : s.tm.respond = false)
+    (haw : (x.ms s.grant).awv = true) (hw : (x.ms s.grant).wv = true) (hsil : Silent x) :
+    ((out c s x).toM s.grant).awr = false ∧ ((out c s x).toM s.grant).wr = false ∧
+    ((out c s x).toM s.grant).bv = false ∧ (out c s x).error = WaitTimer.done s.tm.count ∧
+    (next c s x).grant = s.grant ∧ (next c s x).lock = 0 ∧
+    (next c s x).tm = { count := WaitTimer.next t s.tm.count true, respond := WaitTimer.done s.tm.count } := by
+  obtain ⟨h1, h2, h3⟩ := tIn_silent c s x hsil
+  have hi : (tIn c s x).awv = true ∧ (tIn c s x).wv = true := ⟨haw, hw⟩
+  have hres : tRes c s x = { awr := false, wr := false, bv := false, bresp := (tIn c s x).bresp,
+                             error := WaitTimer.done s.tm.count } := by
+    rw [tRes_some c ht]; simp [wOut, hr, h1, h2, h3, wWaitCond, hi.1]
+  have hce : ce c s x = false := by simp [ce, bus, haw]
+  refine ⟨by simp [out, hres], by simp [out, hres], by simp [out, hres], by simp [out, hres], ?_, ?_, ?_⟩
+  · simp only [next, hce]; exact RoundRobin.next_ce_hold _ hgn
+  · simp [next, req, resp, hres, hl]
+  · rw [next_tm c ht]; simp [wNext, wWait, wWaitCond, hr, h1, h2, hi.1, hi.2, wOut]
+
+/-- The RESPOND cycle in which the offered AW and W are absorbed. -/
+theorem silent_absorb_step {t : Nat} (ht : c.t = some t) (s : DState) (x : WBusIn)
+    (hgn : s.grant < c.n) (hl : s.lock = 0) (hr : s.tm.respond = true)
+    (haw : (x.ms s.grant).awv = true) (hw : (x.ms s.grant).wv = true) :
+    ((out c s x).toM s.grant).awr = true ∧ ((out c s x).toM s.grant).wr = true ∧
+    ((out c s x).toM s.grant).bv = false ∧ (out c s x).error = false ∧
+    (next c s x).grant = s.grant ∧ (next c s x).lock = 1 ∧
+    (next c s x).tm = { count := t, respond := true } := by
+  have hi : (tIn c s x).awv = true ∧ (tIn c s x).wv = true := ⟨haw, hw⟩
+  have hres : tRes c s x = { awr := true, wr := true, bv := false, bresp := RESP_SLVERR, error := false } := by
+    rw [tRes_some c ht]; simp [wOut, hr, hi.1, hi.2]
+  refine ⟨by simp [out, hres], by simp [out, hres], by simp [out, hres], by simp [out, hres],
+          respond_holds_grant c ht s x hr hgn, ?_, ?_⟩
+  · simp [next, req, resp, hres, hl, bus, haw, ctrNext]
+  · rw [next_tm c ht]; simp [wNext, wWait, hr, wOut, hi.1, hi.2, WaitTimer.next]
+
+/-- The RESPOND cycle in which the forced `B` is taken. -/
+theorem silent_b_step {t : Nat} (ht : c.t = some t) (s : DState) (x : WBusIn)
+    (hgn : s.grant < c.n) (hl : s.lock = 1) (hr : s.tm.respond = true)
+    (haw : (x.ms s.grant).awv = false) (hw : (x.ms s.grant).wv = false) (hb : (x.ms s.grant).br = true) :
+    ((out c s x).toM s.grant).bv = true ∧ ((out c s x).toM s.grant).bresp = RESP_SLVERR ∧
+    (out c s x).error = false ∧
+    (next c s x).grant = s.grant ∧ (next c s x).lock = 0 ∧ (next c s x).tm = fInit t := by
+  have hi : (tIn c s x).awv = false ∧ (tIn c s x).wv = false ∧ (tIn c s x).br = true := ⟨haw, hw, hb⟩
+  have hres : tRes c s x = { awr := false, wr := false, bv := true, bresp := RESP_SLVERR, error := false } := by
+    rw [tRes_some c ht]; simp [wOut, hr, hi.1, hi.2.1]
+  refine ⟨by simp [out, hres], by simp [out, hres], by simp [out, hres],
+          respond_holds_grant c ht s x hr hgn, ?_, ?_⟩
+  · simp [next, req, resp, hres, hl, bus, haw, hb, ctrNext]
+  · rw [next_tm c ht]; exact by
+      simp [wNext, wWait, hr, wOut, hi.1, hi.2.1, hi.2.2, WaitTimer.next, fInit]
+
+/-- Waiting stretch: `ys.length ≤ cnt` cycles of an unaccepted AW+W request of the owner with silent slaves. -/
+theorem silent_waiting {t : Nat} (ht : c.t = some t) (ys : List WBusIn) : ∀ (s : DState) (cnt : Nat),
+    s.grant < c.n → s.lock = 0 → s.tm = { count := cnt, respond := false } → ys.length ≤ cnt → cnt ≤ t →
+    (∀ y ∈ ys, (y.ms s.grant).awv = true ∧ (y.ms s.grant).wv = true ∧ Silent y) →
+    ((machine c).runFrom s ys).grant = s.grant ∧ ((machine c).runFrom s ys).lock = 0 ∧
+    ((machine c).runFrom s ys).tm = { count := cnt - ys.length, respond := false } ∧
+    ∀ o ∈ (machine c).traceFrom s ys, o.error = false ∧ (o.toM s.grant).awr = false ∧
+      (o.toM s.grant).wr = false ∧ (o.toM s.grant).bv = false := by
+  induction ys with
+  | nil => intro s cnt _ hl htm _ _ _; simp [Machine.runFrom, Machine.traceFrom, hl, htm]
+  | cons y ys ih =>
+    intro s cnt hgn hl htm hlen hct hreq
+    obtain ⟨haw, hw, hsil⟩ := hreq y (by simp)
+    have hr : s.tm.respond = false := by rw [htm]
+    have hpos : cnt ≠ 0 := by simp at hlen; omega
+    have hdone : WaitTimer.done s.tm.count = false := by rw [htm]; simp [WaitTimer.done, hpos]
+    obtain ⟨o1, o2, o3, o4, n1, n2, n3⟩ := silent_wait_step c ht s y hgn hl hr haw hw hsil
+    have hn3 : (next c s y).tm = { count := cnt - 1, respond := false } := by
+      rw [n3, hdone, htm]; simp [WaitTimer.next, WaitTimer.done, hpos]
+    have ih' := ih (next c s y) (cnt - 1) (by rw [n1]; exact hgn) n2 hn3 (by simp at hlen; omega) (by omega)
+      (fun z hz => by rw [n1]; exact hreq z (by simp [hz]))
+    obtain ⟨r1, r2, r3, r4⟩ := ih'
+    refine ⟨?_, ?_, ?_, ?_⟩
+    · show ((machine c).runFrom (next c s y) ys).grant = _
+      rw [r1, n1]
+    · exact r2
+    · show ((machine c).runFrom (next c s y) ys).tm = _
+      rw [r3]; simp; omega
+    · intro o ho
+      simp only [Machine.traceFrom, List.mem_cons] at ho
+      rcases ho with rfl | ho
+      · exact ⟨by rw [show (machine c).out s y = out c s y from rfl, o4, hdone], o1, o2, o3⟩
+      · have := r4 o ho; rw [n1] at this; exact this
+
 end SharedW
 
 /-! ### Shared interconnect, read direction -/
@@ -205,6 +300,103 @@ theorem respond_holds_grant {t : Nat} (ht : c.t = some t) (s : DState) (x : RBus
     cases (bus s x).arv <;> simp
   simp only [next, hce]
   exact RoundRobin.next_ce_hold _ hg
+
+/-- No slave raises `ar.ready` or `r.valid`. -/
+def Silent (x : RBusIn) : Prop := ∀ j, (x.ss j).arr = false ∧ (x.ss j).rv = false
+
+theorem tIn_silent (s : DState) (x : RBusIn) (h : Silent x) :
+    (tIn c s x).arr = false ∧ (tIn c s x).rv = false :=
+  ⟨orAll_false (fun j => by simp [(h j).1]), orAll_false (fun j => by simp [(h j).2])⟩
+
+theorem silent_wait_step {t : Nat} (ht : c.t = some t) (s : DState) (x : RBusIn)
+    (hgn : s.grant < c.n) (hl : s.lock = 0) (hr : s.tm.respond = false)
+    (har : (x.ms s.grant).arv = true) (hsil : Silent x) :
+    ((out c s x).toM s.grant).arr = false ∧ ((out c s x).toM s.grant).rv = false ∧
+    (out c s x).error = WaitTimer.done s.tm.count ∧
+    (next c s x).grant = s.grant ∧ (next c s x).lock = 0 ∧
+    (next c s x).tm = { count := WaitTimer.next t s.tm.count true, respond := WaitTimer.done s.tm.count } := by
+  obtain ⟨h1, h2⟩ := tIn_silent c s x hsil
+  have hi : (tIn c s x).arv = true := har
+  have hres : (tRes c s x).arr = false ∧ (tRes c s x).rv = false ∧
+      (tRes c s x).error = WaitTimer.done s.tm.count := by
+    rw [tRes_some c ht]; simp [rOut, hr, h1, h2, rWaitCond, hi]
+  have hce : ce c s x = false := by simp [ce, bus, har]
+  refine ⟨by simp [out, hres.1], by simp [out, hres.2.1], by simp [out, hres.2.2], ?_, ?_, ?_⟩
+  · simp only [next, hce]; exact RoundRobin.next_ce_hold _ hgn
+  · simp [next, req, resp, hres.1, hres.2.1, hl]
+  · rw [next_tm c ht]; simp [rNext, rWait, rWaitCond, hr, h1, hi, rOut]
+
+theorem silent_absorb_step {t : Nat} (ht : c.t = some t) (s : DState) (x : RBusIn)
+    (hgn : s.grant < c.n) (hl : s.lock = 0) (hr : s.tm.respond = true)
+    (har : (x.ms s.grant).arv = true) :
+    ((out c s x).toM s.grant).arr = true ∧ ((out c s x).toM s.grant).rv = false ∧
+    (out c s x).error = false ∧
+    (next c s x).grant = s.grant ∧ (next c s x).lock = 1 ∧
+    (next c s x).tm = { count := t, respond := true } := by
+  have hi : (tIn c s x).arv = true := har
+  have hres : (tRes c s x).arr = true ∧ (tRes c s x).rv = false ∧ (tRes c s x).error = false := by
+    rw [tRes_some c ht]; simp [rOut, hr, hi]
+  refine ⟨by simp [out, hres.1], by simp [out, hres.2.1], by simp [out, hres.2.2],
+          respond_holds_grant c ht s x hr hgn, ?_, ?_⟩
+  · simp [next, req, resp, hres.1, hres.2.1, hl, bus, har, ctrNext]
+  · rw [next_tm c ht]; simp [rNext, rWait, hr, rOut, hi, WaitTimer.next]
+
+theorem silent_r_step {t : Nat} (ht : c.t = some t) (s : DState) (x : RBusIn)
+    (hgn : s.grant < c.n) (hl : s.lock = 1) (hr : s.tm.respond = true)
+    (har : (x.ms s.grant).arv = false) (hb : (x.ms s.grant).rr = true) :
+    ((out c s x).toM s.grant).rv = true ∧ ((out c s x).toM s.grant).rresp = RESP_SLVERR ∧
+    ((out c s x).toM s.grant).rdata = ones c.dw ∧ (c.full = true → ((out c s x).toM s.grant).rlast = true) ∧
+    (out c s x).error = false ∧
+    (next c s x).grant = s.grant ∧ (next c s x).lock = 0 ∧ (next c s x).tm = fInit t := by
+  have hi : (tIn c s x).arv = false ∧ (tIn c s x).rr = true := ⟨har, hb⟩
+  have hres : (tRes c s x).arr = false ∧ (tRes c s x).rv = true ∧ (tRes c s x).rresp = RESP_SLVERR ∧
+      (tRes c s x).rdata = ones c.dw ∧ (c.full = true → (tRes c s x).rlast = true) ∧
+      (tRes c s x).error = false := by
+    rw [tRes_some c ht]; simp [rOut, hr, hi.1]
+    intro hf; simp [hf]
+  have hresp : resp c s x = true := by
+    simp only [resp, hres.2.1, bus, hb, Bool.true_and]
+    cases hf : c.full
+    · simp
+    · simp [hres.2.2.2.2.1 hf]
+  refine ⟨by simp [out, hres.2.1], by simp [out, hres.2.2.1], by simp [out, hres.2.2.2.1], ?_,
+          by simp [out, hres.2.2.2.2.2], respond_holds_grant c ht s x hr hgn, ?_, ?_⟩
+  · intro hf; simp [out, hres.2.2.2.2.1 hf]
+  · simp [next, req, hresp, hres.1, hl, bus, har, ctrNext]
+  · rw [next_tm c ht]; simp [rNext, rWait, hr, rOut, hi.1, hi.2, WaitTimer.next, fInit]
+
+theorem silent_waiting {t : Nat} (ht : c.t = some t) (ys : List RBusIn) : ∀ (s : DState) (cnt : Nat),
+    s.grant < c.n → s.lock = 0 → s.tm = { count := cnt, respond := false } → ys.length ≤ cnt → cnt ≤ t →
+    (∀ y ∈ ys, (y.ms s.grant).arv = true ∧ Silent y) →
+    ((machine c).runFrom s ys).grant = s.grant ∧ ((machine c).runFrom s ys).lock = 0 ∧
+    ((machine c).runFrom s ys).tm = { count := cnt - ys.length, respond := false } ∧
+    ∀ o ∈ (machine c).traceFrom s ys, o.error = false ∧ (o.toM s.grant).arr = false ∧
+      (o.toM s.grant).rv = false := by
+  induction ys with
+  | nil => intro s cnt _ hl htm _ _ _; simp [Machine.runFrom, Machine.traceFrom, hl, htm]
+  | cons y ys ih =>
+    intro s cnt hgn hl htm hlen hct hreq
+    obtain ⟨har, hsil⟩ := hreq y (by simp)
+    have hr : s.tm.respond = false := by rw [htm]
+    have hpos : cnt ≠ 0 := by simp at hlen; omega
+    have hdone : WaitTimer.done s.tm.count = false := by rw [htm]; simp [WaitTimer.done, hpos]
+    obtain ⟨o1, o2, o4, n1, n2, n3⟩ := silent_wait_step c ht s y hgn hl hr har hsil
+    have hn3 : (next c s y).tm = { count := cnt - 1, respond := false } := by
+      rw [n3, hdone, htm]; simp [WaitTimer.next, WaitTimer.done, hpos]
+    have ih' := ih (next c s y) (cnt - 1) (by rw [n1]; exact hgn) n2 hn3 (by simp at hlen; omega) (by omega)
+      (fun z hz => by rw [n1]; exact hreq z (by simp [hz]))
+    obtain ⟨r1, r2, r3, r4⟩ := ih'
+    refine ⟨?_, ?_, ?_, ?_⟩
+    · show ((machine c).runFrom (next c s y) ys).grant = _
+      rw [r1, n1]
+    · exact r2
+    · show ((machine c).runFrom (next c s y) ys).tm = _
+      rw [r3]; simp; omega
+    · intro o ho
+      simp only [Machine.traceFrom, List.mem_cons] at ho
+      rcases ho with rfl | ho
+      · exact ⟨by rw [show (machine c).out s y = out c s y from rfl, o4, hdone], o1, o2⟩
+      · have := r4 o ho; rw [n1] at this; exact this
 
 end SharedR
 
